@@ -1,6 +1,221 @@
-// newton kinds -- filled in by the corresponding check (see /verif/CONVENTIONS.md).
+// newton kinds (C17, C18): the six Newton solve methods and the two finite-difference Jacobians.
+//
+//   newton.scalar <tol|-> <delta|-> <iters|-> <guess> <fn>              elt f64 | cplx
+//   newton.sys    <tol|-> <delta|-> <iters|-> <guess-vec> <{fn,..}>     elt f64 | cplx
+//   newton.sysjac <tol|-> <delta|-> <iters|-> <guess-vec> <{fn,..}> <r> <c> <{jac entry,.. row-major}>
+//   newton.jac    <point-vec> <delta> <{fn,..}>                         elt f64 | cplx
+//
+// `-` keeps the default of Newton::new.  <fn> is a shared AST (fnast.rs; the model gets the same
+// expression as a Gallina term) or, for search-only cases on f64, a builtin `@name:param:..`.
+// The closures count their calls and record the points at which they were called.
+//
+// Answer of the solver kinds (must match coq/Model/NewtonRun.v run_newton):
+//   [parameters()  (scalar kinds only)]  ok(1)/err(0) value  #calls  call points pass by pass, each pass sorted
+//   [parameters() again]  ok/err value #calls of a second call on the same object
+// Answer of newton.jac:  rows cols entries  #calls  call points in call order.
+// Nothing is emitted when the library panics (the answer is then just P<class>).
 #![allow(unused_imports, dead_code)]
-use crate::io::{Args, Out, Elt};
-pub fn run<T: Elt>(kind: &str, _a: &mut Args, _out: &mut Out) {
-    panic!("harness: unknown kind {}", kind);
+use std::cell::RefCell;
+use ohsl::{Cmplx, Matrix, Newton, Vector};
+use crate::io::{Args, Out, Elt, parse_f64};
+use crate::fnast::{self, Expr};
+use crate::rat::Rat;
+
+// ---------------------------------------------------------------- type dispatch
+pub trait NElt: Elt {
+    fn solve_scalar(_n: &Newton<Self>, _f: &dyn Fn(Self) -> Self) -> Result<Self, Self> { panic!("harness: newton kinds need f64 or cplx") }
+    fn params(_n: &Newton<Self>) -> (f64, f64, usize, Self) { panic!("harness: newton kinds need f64 or cplx") }
+    fn solve_sys(_n: &Newton<Vector<Self>>, _f: &dyn Fn(Vector<Self>) -> Vector<Self>) -> Result<Vector<Self>, Vector<Self>> { panic!("harness: newton kinds need f64 or cplx") }
+    fn solve_sysjac(_n: &Newton<Vector<Self>>, _f: &dyn Fn(Vector<Self>) -> Vector<Self>, _j: &dyn Fn(Vector<Self>) -> Matrix<Self>) -> Result<Vector<Self>, Vector<Self>> { panic!("harness: newton kinds need f64 or cplx") }
+    fn jac(_p: Vector<Self>, _f: &dyn Fn(Vector<Self>) -> Vector<Self>, _delta: f64) -> Matrix<Self> { panic!("harness: newton kinds need f64 or cplx") }
+    fn builtin1(_name: &str, _p: &[f64]) -> Box<dyn Fn(Self) -> Self> { panic!("harness: builtin functions are f64 only") }
+    fn builtinv(_name: &str, _p: &[f64]) -> Box<dyn Fn(&[Self]) -> Vec<Self>> { panic!("harness: builtin functions are f64 only") }
+}
+impl NElt for Rat {}
+impl NElt for f64 {
+    fn solve_scalar(n: &Newton<f64>, f: &dyn Fn(f64) -> f64) -> Result<f64, f64> { n.solve(f) }
+    fn params(n: &Newton<f64>) -> (f64, f64, usize, f64) { n.parameters() }
+    fn solve_sys(n: &Newton<Vector<f64>>, f: &dyn Fn(Vector<f64>) -> Vector<f64>) -> Result<Vector<f64>, Vector<f64>> { n.solve(f) }
+    fn solve_sysjac(n: &Newton<Vector<f64>>, f: &dyn Fn(Vector<f64>) -> Vector<f64>, j: &dyn Fn(Vector<f64>) -> Matrix<f64>) -> Result<Vector<f64>, Vector<f64>> { n.solve_jacobian(f, j) }
+    fn jac(p: Vector<f64>, f: &dyn Fn(Vector<f64>) -> Vector<f64>, delta: f64) -> Matrix<f64> { Matrix::<f64>::jacobian(p, f, delta) }
+    fn builtin1(name: &str, p: &[f64]) -> Box<dyn Fn(f64) -> f64> {
+        let c = if p.is_empty() { 0.0 } else { p[0] };
+        match name {
+            "cos" => Box::new(|x: f64| x.cos() - x),                 // root 0.7390851332151607
+            "exp" => Box::new(move |x: f64| x.exp() - c),            // root ln c
+            "sin" => Box::new(move |x: f64| x.sin() - c),            // root asin c
+            "xexp" => Box::new(move |x: f64| x * x.exp() - c),       // root LambertW(c)
+            "abs" => Box::new(|x: f64| x.abs()),                     // kink at the root
+            "absm" => Box::new(move |x: f64| x.abs() - c),           // kink away from the roots +-c
+            "sqrtabs" => Box::new(|x: f64| x.abs().sqrt()),          // Newton 2-cycle x -> -x
+            "cbrt" => Box::new(|x: f64| x.cbrt()),                   // Newton diverges x -> -2x
+            "atan" => Box::new(|x: f64| x.atan()),                   // diverges for |x0| > 1.3917
+            "expp" => Box::new(|x: f64| x.exp()),                    // no root
+            "step" => Box::new(|x: f64| if x < 0.0 { -1.0 } else { 1.0 }),   // derivative 0: division by zero
+            _ => panic!("harness: unknown builtin {}", name),
+        }
+    }
+    fn builtinv(name: &str, p: &[f64]) -> Box<dyn Fn(&[f64]) -> Vec<f64>> {
+        let c: Vec<f64> = p.to_vec();
+        match name {
+            // diagonally dominant: f_i = 4 x_i + sin(x_{i+1}) - c_i
+            "dsin" => Box::new(move |x: &[f64]| { let n = x.len(); (0..n).map(|i| 4.0 * x[i] + x[(i + 1) % n].sin() - c[i]).collect() }),
+            // f_i = 3 x_i + cos(x_{i+1}) * 0.5 + exp(-x_i*x_i) * 0.25 - c_i
+            "dcos" => Box::new(move |x: &[f64]| { let n = x.len(); (0..n).map(|i| 3.0 * x[i] + 0.5 * x[(i + 1) % n].cos() + 0.25 * (-x[i] * x[i]).exp() - c[i]).collect() }),
+            // no root: f_i = exp(x_i) + 1
+            "noroot" => Box::new(|x: &[f64]| x.iter().map(|t| t.exp() + 1.0).collect()),
+            // kinks: f_i = |x_i| + x_{i+1}/4 - c_i
+            "kink" => Box::new(move |x: &[f64]| { let n = x.len(); (0..n).map(|i| x[i].abs() + 0.25 * x[(i + 1) % n] - c[i]).collect() }),
+            _ => panic!("harness: unknown builtin {}", name),
+        }
+    }
+}
+impl NElt for Cmplx {
+    fn solve_scalar(n: &Newton<Cmplx>, f: &dyn Fn(Cmplx) -> Cmplx) -> Result<Cmplx, Cmplx> { n.solve(f) }
+    fn params(n: &Newton<Cmplx>) -> (f64, f64, usize, Cmplx) { n.parameters() }
+    fn solve_sys(n: &Newton<Vector<Cmplx>>, f: &dyn Fn(Vector<Cmplx>) -> Vector<Cmplx>) -> Result<Vector<Cmplx>, Vector<Cmplx>> { n.solve(f) }
+    fn solve_sysjac(n: &Newton<Vector<Cmplx>>, f: &dyn Fn(Vector<Cmplx>) -> Vector<Cmplx>, j: &dyn Fn(Vector<Cmplx>) -> Matrix<Cmplx>) -> Result<Vector<Cmplx>, Vector<Cmplx>> { n.solve_jacobian(f, j) }
+    fn jac(p: Vector<Cmplx>, f: &dyn Fn(Vector<Cmplx>) -> Vector<Cmplx>, delta: f64) -> Matrix<Cmplx> { Matrix::<Cmplx>::jacobian_cmplx(p, f, delta) }
+}
+
+// ---------------------------------------------------------------- user functions
+enum Fun1<T: NElt> { Ast(Expr<T>), Builtin(Box<dyn Fn(T) -> T>) }
+enum FunV<T: NElt> { Ast(Vec<Expr<T>>), Builtin(Box<dyn Fn(&[T]) -> Vec<T>>) }
+
+fn builtin_parts(tok: &str) -> (&str, Vec<f64>) {
+    let mut it = tok[1..].split(':');
+    let name = it.next().unwrap();
+    (name, it.map(parse_f64).collect())
+}
+fn exprs<T: NElt>(tok: &str) -> Vec<Expr<T>> {
+    let inner = tok.strip_prefix('{').and_then(|t| t.strip_suffix('}')).unwrap_or_else(|| panic!("harness: bad function list {}", tok));
+    if inner.is_empty() { Vec::new() } else { inner.split(',').map(fnast::parse::<T>).collect() }
+}
+fn fun1<T: NElt>(tok: &str) -> Fun1<T> {
+    if tok.starts_with('@') { let (n, p) = builtin_parts(tok); Fun1::Builtin(T::builtin1(n, &p)) }
+    else { Fun1::Ast(fnast::parse::<T>(tok)) }
+}
+fn funv<T: NElt>(tok: &str) -> FunV<T> {
+    if tok.starts_with('@') { let (n, p) = builtin_parts(tok); FunV::Builtin(T::builtinv(n, &p)) }
+    else { FunV::Ast(exprs::<T>(tok)) }
+}
+fn call1<T: NElt>(f: &Fun1<T>, x: T) -> T {
+    match f { Fun1::Ast(e) => fnast::eval(e, &[x]), Fun1::Builtin(b) => b(x) }
+}
+fn callv<T: NElt>(f: &FunV<T>, x: &Vector<T>) -> Vector<T> {
+    match f {
+        // one expression per component, evaluated in order (Base/FnAst.v evalv)
+        FunV::Ast(es) => Vector::create(es.iter().map(|e| fnast::eval(e, &x.vec)).collect()),
+        FunV::Builtin(b) => Vector::create(b(&x.vec)),
+    }
+}
+
+// ---------------------------------------------------------------- output helpers
+fn key(toks: &[String]) -> Vec<u64> {
+    // the flattened form of coq/Base/Flat.v: int -> [0; n], float -> [1; bits]
+    let mut k = Vec::new();
+    for t in toks {
+        let (tag, v) = match t.as_bytes()[0] {
+            b'i' => (0u64, t[1..].parse::<u64>().expect("harness: negative int in a call point")),
+            b'f' => (1u64, t[1..].parse::<u64>().unwrap()),
+            _ => panic!("harness: unexpected token in a call point"),
+        };
+        k.push(tag); k.push(v);
+    }
+    k
+}
+// the call points pass by pass (k calls per pass), each pass as a sorted multiset (Model/NewtonRun.v passes)
+fn emit_passes(points: Vec<Vec<String>>, k: usize, out: &mut Out) {
+    for ch in points.chunks(k) {
+        let mut ps: Vec<(Vec<u64>, &Vec<String>)> = ch.iter().map(|p| (key(p), p)).collect();
+        ps.sort_by(|a, b| a.0.cmp(&b.0));
+        for (_, p) in ps { out.toks.extend(p.iter().cloned()); }
+    }
+}
+fn toks_s<T: Elt>(x: &T) -> Vec<String> { let mut o = Out::new(); o.s(x); o.toks }
+fn toks_v<T: Elt>(x: &Vector<T>) -> Vec<String> { let mut o = Out::new(); o.v(x); o.toks }
+fn tagged(tag: usize, mut t: Vec<String>) -> Vec<String> { let mut o = Out::new(); o.usize(tag); o.toks.append(&mut t); o.toks }
+
+fn opt_f64(a: &mut Args) -> Option<f64> { let w = a.word(); if w == "-" { None } else { Some(parse_f64(w)) } }
+fn opt_usize(a: &mut Args) -> Option<usize> { let w = a.word(); if w == "-" { None } else { Some(w.parse().expect("harness: bad usize")) } }
+
+fn configure<X>(n: &mut Newton<X>, t: Option<f64>, d: Option<f64>, it: Option<usize>) {
+    if let Some(t) = t { n.tolerance(t); }
+    if let Some(d) = d { n.delta(d); }
+    if let Some(it) = it { n.iterations(it); }
+}
+fn emit_params<T: NElt>(p: (f64, f64, usize, T), out: &mut Out) { out.f(p.0); out.f(p.1); out.usize(p.2); out.s(&p.3); }
+fn emit_res_s<T: Elt>(r: &Result<T, T>, out: &mut Out) {
+    match r { Ok(x) => { out.usize(1); out.s(x); } Err(x) => { out.usize(0); out.s(x); } }
+}
+fn emit_res_v<T: Elt>(r: &Result<Vector<T>, Vector<T>>, out: &mut Out) {
+    match r { Ok(x) => { out.usize(1); out.v(x); } Err(x) => { out.usize(0); out.v(x); } }
+}
+
+pub fn run<T: NElt>(kind: &str, a: &mut Args, out: &mut Out) {
+    let mut o = Out::new();          // appended to `out` only if nothing panicked
+    match kind {
+        "newton.scalar" => {
+            let (t, d, it) = (opt_f64(a), opt_f64(a), opt_usize(a));
+            let guess = a.s::<T>();
+            let f = fun1::<T>(a.word());
+            let log: RefCell<Vec<T>> = RefCell::new(Vec::new());
+            let func = |x: T| -> T { log.borrow_mut().push(x); call1(&f, x) };
+            let mut n = Newton::<T>::new(guess);
+            configure(&mut n, t, d, it);
+            emit_params(T::params(&n), &mut o);
+            let r1 = T::solve_scalar(&n, &func);
+            let pts: Vec<T> = log.borrow_mut().drain(..).collect();
+            emit_res_s(&r1, &mut o); o.usize(pts.len());
+            emit_passes(pts.iter().map(toks_s).collect(), 3, &mut o);
+            emit_params(T::params(&n), &mut o);
+            let r2 = T::solve_scalar(&n, &func);
+            emit_res_s(&r2, &mut o); o.usize(log.borrow().len());
+        }
+        "newton.sys" | "newton.sysjac" => {
+            let (t, d, it) = (opt_f64(a), opt_f64(a), opt_usize(a));
+            let guess = a.v::<T>();
+            let f = funv::<T>(a.word());
+            let with_jac = kind == "newton.sysjac";
+            let (jr, jc, jes) = if with_jac { let r = a.usize(); let c = a.usize(); (r, c, exprs::<T>(a.word())) } else { (0, 0, Vec::new()) };
+            if with_jac && jes.len() != jr * jc { panic!("harness: jacobian literal size"); }
+            let log: RefCell<Vec<Vec<String>>> = RefCell::new(Vec::new());
+            let func = |x: Vector<T>| -> Vector<T> {
+                log.borrow_mut().push(if with_jac { tagged(0, toks_v(&x)) } else { toks_v(&x) });
+                callv(&f, &x) };
+            let jac = |x: Vector<T>| -> Matrix<T> {
+                log.borrow_mut().push(tagged(1, toks_v(&x)));
+                // entries evaluated in row-major order, then stored (Model/NewtonRun.v fnm)
+                let vals: Vec<T> = jes.iter().map(|e| fnast::eval(e, &x.vec)).collect();
+                let mut m = Matrix::<T>::new(jr, jc, T::zero());
+                for i in 0..jr { for j in 0..jc { m[(i, j)] = vals[i * jc + j]; } }
+                m };
+            let per_pass = if with_jac { 2 } else { guess.size() + 2 };
+            let mut n = Newton::<Vector<T>>::new(guess);
+            configure(&mut n, t, d, it);
+            let solve = |n: &Newton<Vector<T>>| if with_jac { T::solve_sysjac(n, &func, &jac) } else { T::solve_sys(n, &func) };
+            let r1 = solve(&n);
+            let pts: Vec<Vec<String>> = log.borrow_mut().drain(..).collect();
+            emit_res_v(&r1, &mut o); o.usize(pts.len());
+            emit_passes(pts, per_pass, &mut o);
+            let r2 = solve(&n);
+            emit_res_v(&r2, &mut o); o.usize(log.borrow().len());
+        }
+        "newton.jac" => {
+            let p = a.v::<T>();
+            let delta = a.f64();
+            let f = funv::<T>(a.word());
+            let log: RefCell<Vec<Vec<String>>> = RefCell::new(Vec::new());
+            let func = |x: Vector<T>| -> Vector<T> { log.borrow_mut().push(toks_v(&x)); callv(&f, &x) };
+            let snap = toks_v(&p);
+            let m = T::jac(p.clone(), &func, delta);
+            if toks_v(&p) != snap { panic!("harness: operand mutated by jacobian"); }
+            o.m(&m);
+            let pts = log.borrow();
+            o.usize(pts.len());
+            for q in pts.iter() { o.toks.extend(q.iter().cloned()); }
+        }
+        _ => panic!("harness: unknown kind {}", kind),
+    }
+    out.toks.append(&mut o.toks);
 }
